@@ -11,6 +11,11 @@ C = dict(
         dict(module="PipeClock_MC", cfg="PipeClock_MC_Lag_tickfix.cfg", workers=8),
         dict(module="PipeClock_MC", cfg="PipeClock_MC_AB_floor.cfg", workers=8),
         dict(module="PipeClock_MC", cfg="PipeClock_MC_3_fixed.cfg", workers=8, tiers=["thorough"]),
+        # resume: every collection of the channel from its own checkpoint, any start order
+        dict(module="PipeClock_MC", cfg="PipeClock_MC_RAB.cfg", workers=4),           # repaired start order: strict floor
+        dict(module="PipeClock_MC", cfg="PipeClock_MC_RAB_asbuilt.cfg", workers=4),   # as built: floor of the collections started before the read
+        dict(module="PipeClock_MC", cfg="PipeClock_MC_R3.cfg", workers=8, tiers=["thorough"]),
+        dict(module="PipeClock_MC", cfg="PipeClock_MC_R3_asbuilt.cfg", workers=8, tiers=["thorough"]),
     ],
     plan_sources=[
         dict(name="s1", module="PipeClock_MC", cfg="PipeClock_PlanS1.cfg", cap={"quick": 300}, params=P(1, ["c1", "c2"]), workers=8),
@@ -22,6 +27,12 @@ C = dict(
              cap={"quick": 150, "thorough": 3000}, params=P(1, ["c1", "c2"])),
         dict(name="three", module="PipeClock_MC", cfg="PipeClock_Plan3.cfg", simulate={"quick": 40, "thorough": 600}, depth=200,
              cap={"quick": 100, "thorough": 3000}, params=P(1, ["c1", "c2", "c3"])),
+        # resume plans (Start steps are part of the history: no prelude)
+        dict(name="rs", module="PipeClock_MC", cfg="PipeClock_PlanRS.cfg", cap={"quick": 200}, params=P(1, []), workers=8),
+        dict(name="rab", module="PipeClock_MC", cfg="PipeClock_PlanRAB.cfg", simulate={"quick": 40, "thorough": 1500}, depth=200,
+             cap={"quick": 100, "thorough": 3000}, params=P(1, [])),
+        dict(name="r3", module="PipeClock_MC", cfg="PipeClock_PlanR3.cfg", simulate={"quick": 40, "thorough": 1500}, depth=200,
+             cap={"quick": 100, "thorough": 3000}, params=P(1, [])),
     ],
     directed="plans/C03.jsonl",
     trace=("Pipe_Trace", "Pipe_Trace.cfg"),
@@ -34,9 +45,20 @@ C = dict(
     assumptions=ASSUME_PIPE + [
         "tick-only pack emission is wall-clock dependent in the code (TTInterval); the contract treats it as nondeterministic, "
         "the driver lets the 1 ms timer expire before each compute step",
-        "resume floor is exercised through seek positions in directed plans",
+        "resume: collections sharing the channel are started from different checkpoints in every order, interleaved with the "
+        "reads (TLC plans) and in all start x feed orders (directed plans); the floor of a pack is the highest checkpoint of "
+        "the whole trace (strict) or, under known finding C03_resume_start_order, of the collections started before it was read",
     ],
 )
 
 def run(tier, replay=None):
+    if not replay:
+        from lib import vlib
+        # negative controls of the resume model: a joining collection that does not lift the clock, and the as-built
+        # start order against the strict floor, must both leave the contract
+        for cfg in ("PipeClock_MC_RAB_nojoin.cfg", "PipeClock_MC_RAB_asbuilt_strict.cfg"):
+            r = vlib.run_tlc("PipeClock_MC", cfg, workers=4, timeout=300)
+            if "C03" not in r.violated:
+                raise vlib.Inconclusive("%s no longer violates C03: the resume part of the model is vacuous" % cfg)
+            vlib.log("[tlc] PipeClock_MC/%s: violates C03 as expected" % cfg)
     return flow.standard_flow(C, tier, replay)
